@@ -12,7 +12,7 @@ use std::rc::Rc;
 
 /// rules used by the runner suite only (control flow is judged here, not the meaning of the rules): a non-linear left side
 /// that starts to match once its two children are found to be the same class up to a symmetry
-const EXTRA: [(&str, &str, &str, &[(&str, &str)]); 6] = [
+const EXTRA: [(&str, &str, &str, &[(&str, &str)]); 7] = [
     ("k-same", "(k ?a ?a)", "?a", &[]),
     ("k-same-h", "(k ?a ?a)", "(h ?a)", &[]),
     ("k-comm", "(k ?a ?b)", "(k ?b ?a)", &[]),
@@ -20,6 +20,8 @@ const EXTRA: [(&str, &str, &str, &[(&str, &str)]); 6] = [
     ("flip-first", "(t3 (f2 $a $b) ?y ?z)", "(t3 (f2 $b $a) ?y ?z)", &[]),
     ("flip-second", "(t3 ?x (f2 $a $b) ?z)", "(t3 ?x (f2 $b $a) ?z)", &[]),
     ("flip-third", "(t3 ?x ?y (f2 $a $b))", "(t3 ?x ?y (f2 $b $a))", &[]),
+    // a rule that never saturates and grows the e-graph by two e-nodes per round: for runs of 60-70 iterations
+    ("grow", "(h ?x)", "(h (k ?x ?x))", &[]),
 ];
 
 fn rule_at(i: usize) -> &'static (&'static str, &'static str, &'static str, &'static [(&'static str, &'static str)]) {
@@ -450,6 +452,15 @@ pub fn run(ctx: &mut Ctx) {
         }
         let fail_at = if rng.chance(1, 4) { Some(rng.below(3)) } else { None };
         let eqsat = rng.chance(1, 3);
+        if !cfg!(feature = "checks") && rng.chance(1, 14) {
+            // a long run: iteration limits beyond sixty (far above the default of thirty), reached by a rule that never
+            // saturates; the loop must stop with `IterationLimit` right after the configured bound
+            let num = |s: &str| ATerm { v: 15, fields: vec![CField::Lit(s.into())], children: vec![] };
+            let st = vec![ATerm { v: 13, fields: vec![CField::App], children: vec![num("1")] }];
+            let lim = 58 + rng.below(14);
+            ctx.emit(exec_runner_p(st, vec![POOL.len() + 6], lim, 1500, None, eqsat, false));
+            continue;
+        }
         if rng.chance(1, 12) {
             // a class with six slots that gains three independent symmetries, one per rule (in any order of the rules): each
             // must still hold when the run stops
